@@ -44,9 +44,74 @@ func newFuncCanonMode(info *types.Info, fd *ast.FuncDecl, abs bool) *fcanon {
 }
 
 func newFuncCanonOpt(info *types.Info, fd *ast.FuncDecl, abs bool, getters map[*types.Func]string) *fcanon {
+	return newFuncCanonSeed(info, fd, abs, getters, nil)
+}
+
+// calleeCanon: the canonical printer of callee g as seen from a call site: g's parameters print as the
+// caller's canonical argument expressions and its receiver as the caller's canonical receiver expression.
+// nil when the call does not bind g's parameters one to one.
+func calleeCanon(info *types.Info, caller *fcanon, call *ast.CallExpr, g *ast.FuncDecl) *fcanon {
+	if g == nil || g.Body == nil || call.Ellipsis.IsValid() || g.Type.Params.NumFields() != len(call.Args) {
+		return nil
+	}
+	for _, f := range g.Type.Params.List {
+		if _, variadic := f.Type.(*ast.Ellipsis); variadic {
+			return nil
+		}
+	}
+	seed := make([]string, len(call.Args))
+	for i, a := range call.Args {
+		seed[i] = caller.E(a)
+	}
+	fc := newFuncCanonSeed(info, g, false, caller.d.getters, seed)
+	if g.Recv != nil && len(g.Recv.List) == 1 && len(g.Recv.List[0].Names) == 1 {
+		sel, ok := ast.Unparen(call.Fun).(*ast.SelectorExpr)
+		if !ok {
+			return nil
+		}
+		if rv := caller.E(sel.X); rv != "RECV" {
+			// re-seed with the receiver's canonical form: definitions were computed with RECV, recompute
+			fc = newFuncCanonSeedRecv(info, g, false, caller.d.getters, seed, rv)
+		}
+	}
+	return fc
+}
+
+// newFuncCanonSeed: seed[i] != "" is printed for the i-th parameter instead of ARGi (a callee seen
+// from a call site: its parameters are the caller's canonical argument expressions).
+func newFuncCanonSeed(info *types.Info, fd *ast.FuncDecl, abs bool, getters map[*types.Func]string, seed []string) *fcanon {
+	return newFuncCanonSeedRecv(info, fd, abs, getters, seed, "")
+}
+
+func newFuncCanonSeedRecv(info *types.Info, fd *ast.FuncDecl, abs bool, getters map[*types.Func]string, seed []string, recv string) *fcanon {
 	d := newDT(info)
 	d.getters = getters
 	p := seedEnv(d, fd)
+	params := map[types.Object]bool{}
+	for o := range p.env {
+		params[o] = true
+	}
+	if recv != "" && fd.Recv != nil {
+		for _, f := range fd.Recv.List {
+			for _, n := range f.Names {
+				p.env[info.Defs[n]] = recv
+			}
+		}
+	}
+	if seed != nil {
+		i := 0
+		for _, f := range fd.Type.Params.List {
+			for _, n := range f.Names {
+				if i < len(seed) && seed[i] != "" {
+					p.env[info.Defs[n]] = seed[i]
+				}
+				i++
+			}
+			if len(f.Names) == 0 {
+				i++
+			}
+		}
+	}
 	if abs {
 		d.absVars = true
 		for o := range p.env {
@@ -113,7 +178,7 @@ func newFuncCanonOpt(info *types.Info, fd *ast.FuncDecl, abs bool, getters map[*
 		if !ok || v.IsField() {
 			return
 		}
-		if cur, seeded := p.env[obj]; seeded && (cur == "RECV" || strings.HasPrefix(cur, "ARG") || abs) {
+		if _, seeded := p.env[obj]; seeded && (params[obj] || abs) {
 			// a parameter that is also assigned holds more than one value
 			p.env[obj] = "var<" + shortType(obj.Type()) + ">"
 			return
